@@ -78,6 +78,18 @@ def build_items(tier, seed, wd):
             files = corpus.stratified_sample(cand, 160 if tier == "quick" else len(cand), seed + 5, always=("/styles/code_examples/",))
             for p in files:
                 add(p, ["--fix", "-c", cfgfile], "affix_" + cname)
+    # every documented form of number_of_spaces on all rules that have the option
+    forms = configs.NUMBER_OF_SPACES_FORMS[:2] if tier == "quick" else configs.NUMBER_OF_SPACES_FORMS
+    for k, form in enumerate(forms):
+        cfg, rules = configs.number_of_spaces_config(table, form)
+        if rules:
+            tag = "nspaces%d" % k
+            cfgfile = configs.write_config(cfg, os.path.join(wd, tag + ".json"))
+            sweeps[tag] = cfg["rule"]
+            cand = sorted(set(f for r in rules for f in inputs.get(r, []) if f.endswith("_test_input.vhd"))) + [p for p in paths if "/styles/code_examples/" in p and p.endswith(".vhd")]
+            files = corpus.stratified_sample(cand, 130 if tier == "quick" else len(cand), seed + 7 + k, always=("/styles/code_examples/spi", "/styles/code_examples/PIC"))
+            for p in files:
+                add(p, ["--fix", "-c", cfgfile], tag)
     # meaning-preserving re-layouts (harness/variants.py): comments at line ends / on own lines, line breaks, case
     import variants
 
